@@ -11,6 +11,7 @@ pub mod c09;
 pub mod c10;
 pub mod c11;
 pub mod c12;
+pub mod c13;
 pub mod c14;
 pub mod c16;
 
@@ -31,6 +32,7 @@ pub static REGISTRY: &[Entry] = &[
     Entry { id: "C10", run: c10::run_check, replay: c10::replay },
     Entry { id: "C11", run: c11::run_check, replay: c11::replay },
     Entry { id: "C12", run: c12::run_check, replay: c12::replay },
+    Entry { id: "C13", run: c13::run_check, replay: c13::replay },
     Entry { id: "C14", run: c14::run_check, replay: c14::replay },
     Entry { id: "C16", run: c16::run_check, replay: c16::replay },
 ];
